@@ -1409,8 +1409,12 @@ val rw_tpl2 :
 val rw_bare : char list -> expr -> nat -> expr * nat
 
 val rw :
-  (char list -> bool) -> (char list -> bool) -> (char list -> bool) -> expr
-  -> nat -> expr * nat
+  (char list -> bool) -> (char list -> bool) -> (char list -> bool) -> bool
+  -> expr -> nat -> expr * nat
+
+val rw_root :
+  (char list -> bool) -> (char list -> bool) -> (char list -> bool) -> bool
+  -> expr -> expr
 
 val temp_index_from : char list -> char list -> nat -> nat -> nat option
 
@@ -1438,4 +1442,4 @@ type tie_result =
 
 val sem_tie :
   char list -> char list -> (char list -> bool) -> (char list -> bool) ->
-  (char list -> bool) -> node -> node -> tie_result
+  (char list -> bool) -> bool -> node -> node -> tie_result
